@@ -43,6 +43,10 @@ func runC04(p *load.Program, r *oblig.Report) {
 	c04Framing(p, r)
 	c04Primitives(p, r)
 	c04EmptyArray(p, r)
+	// the v2 record batch inside a Produce body: header layout and back-patched fields (C05.R1)
+	shareRules(r, "C04", "C04.R10 the record batch of a produce request is canonical", func(sub *oblig.Report) { c05WriterV2(p, sub) })
+	// a response is consumed as exactly one frame also when it carries an error code (C11.R1)
+	shareRules(r, "C04", "C04.R11 an error code does not leave part of the frame unread", func(sub *oblig.Report) { newC11(p, sub).ruleR1() })
 	c17StaleSize(p, r, "C04.R8 the hand-written reader consumes exactly what it accounts for")
 }
 
